@@ -128,7 +128,7 @@ where
 }
 
 /// Descriptor strings over a key-expression generator.
-fn desc_strings(rng: &mut Rng, world: &World, key: &mut dyn FnMut(&mut Rng, Cx) -> String, max_nodes: usize) -> Vec<String> {
+pub fn desc_strings(rng: &mut Rng, world: &World, key: &mut dyn FnMut(&mut Rng, Cx) -> String, max_nodes: usize) -> Vec<String> {
     struct N<'a>(std::cell::RefCell<Vec<String>>, &'a World);
     impl Names for N<'_> {
         fn key(&self, k: &KeyRef) -> String { self.0.borrow()[k.id].clone() }
@@ -421,7 +421,7 @@ pub fn run(cfg: &RunCfg, rep: &mut Report) {
         {
             // BIP-388 shaped key expressions only: [origin]xpub/<a;b>/* with a < b (the template
             // grammar has no place for further derivation steps)
-            let mut mk = |rng: &mut Rng| loop {
+            let mk = |rng: &mut Rng| loop {
                 let mut k = world.gen_xkey(rng, false, false, false);
                 if k.steps.is_empty() {
                     let a = rng.below(5);
